@@ -56,9 +56,11 @@ Z_SETTINGS = ((16, 1, "-"), (12, 1, "every:3000"), (10, 0, "-"), (13, 1, "every:
 
 GZ_PLANS = (("-", "f1"), ("nchx", "s3,f4000,s60000,f1"))
 
-def containers(rng, payload, rle_enc, tier, z_streams=(), gz_members=()):
+def containers(rng, payload, rle_enc, tier, z_streams=(), gz_members=(), pp_files=()):
     """(tag, bytes) for every encoder setting we can produce independently"""
     out = []
+    for eff, g in zip(("9-9-9-9", "9-10-12-13"), pp_files):
+        out.append(("powerpacker-modelwriter-%s" % eff, g))
     for (opts, plan), g in zip(GZ_PLANS, gz_members):
         out.append(("gzip-modelwriter-%s-%s" % (opts.replace("-", "plain"), plan.replace(",", "_")), g))
     for (mb, blk, cl), z in zip(Z_SETTINGS, z_streams):
@@ -270,12 +272,73 @@ def inflate_leg(ck, tier, rng, stats, rp):
             else:
                 ck.nontrivial(("inflate", level, z))
 
+# ---------------------------------------------------------------------------------------------------------------------------
+# PowerPacker (PP20): the extracted model (Model/PP20.v) against decrunch_pp itself.
+
+def pp_leg(ck, tier, rng, stats, rp):
+    model = V.ocaml_build("pp20"); drv = V.build_driver("pp_drv", ["pp_drv.c"]); env = V.san_env()
+    st = stats.setdefault("pp20", {"writer_files": 0, "corpus_files": 0, "mutants": 0, "random": 0, "model_rejects": 0, "bytes_compared": 0})
+    cases = []
+    if rp:
+        cases = [(rp["tag"], bytes.fromhex(rp["z"]), None)]
+    else:
+        base = open(os.path.join(V.REPO, "test-dev", "data", "ode2ptk.mod"), "rb").read()
+        pays = [("ode2ptk.mod", base), ("head", base[:3000]), ("one", b"a"), ("two", b"ab"), ("run", b"a" * 700), ("random", bytes(rng.randrange(256) for _ in range(2500))), ("period", b"abcabcabcabcxyz" * 40),
+                ("runs", b"".join(bytes([rng.randrange(256)]) * rng.choice((1, 2, 3, 4, 5, 6, 12, 300)) for _ in range(80)))]
+        files = [f for f in V.corpus_files() if 2000 < os.path.getsize(f) < 40000 and f.lower().endswith((".mod", ".xm", ".s3m", ".it"))]
+        for f in sorted(rng.sample(files, min(len(files), 2 if tier == "quick" else 25))): pays.append((os.path.relpath(f, V.REPO), open(f, "rb").read()))
+        req = []; meta = []
+        for name, data in pays:
+            for eff in (("9,9,9,9", "9,10,12,13") if tier == "quick" else ("9,9,9,9", "9,10,11,11", "9,10,12,12", "9,10,12,13", "15,15,15,15")):
+                req.append("P %s %s" % (eff, data.hex())); meta.append(("writer:%s/%s" % (name, eff), data))
+        out = V.run([model], inp="\n".join(req) + "\n", timeout=3000).stdout.split("\n")
+        for (tag, data), l in zip(meta, out):
+            w = l.split()
+            if len(w) != 3 or w[0] != "PP" or w[1] != "1": raise V.BuildError("pp20 writer: unexpected output %r" % l[:80])
+            cases.append((tag, bytes.fromhex(w[2]), data)); st["writer_files"] += 1
+        for f in V.corpus_files():
+            try:
+                if open(f, "rb").read(4) == b"PP20" and os.path.getsize(f) < 400000: cases.append(("corpus:" + os.path.relpath(f, V.REPO), open(f, "rb").read(), None)); st["corpus_files"] += 1
+            except OSError: pass
+        for tag, z, _ in list(cases):
+            for _ in range(4 if tier == "quick" else 16):
+                b = bytearray(z); k = rng.random()
+                if k < 0.55: b[rng.randrange(4, len(b))] ^= 1 << rng.randrange(8)
+                elif k < 0.75: b[rng.randrange(4, len(b))] = rng.randrange(256)
+                elif k < 0.9 and len(b) > 24: del b[-4 * rng.randrange(1, 3) - 4:-4]
+                else: b[-rng.randrange(1, 5)] = rng.choice((0, 1, 31, 32, 33, 255, rng.randrange(256)))
+                cases.append(("mutant:" + tag, bytes(b), None)); st["mutants"] += 1
+        for k in range(60 if tier == "quick" else 1500):
+            n = 4 * rng.randrange(1, 12)
+            cases.append(("random:%d" % k, b"PP20" + bytes(rng.choice((9, 9, 10, 13, 15, 8, 16)) for _ in range(4)) + bytes(rng.randrange(256) for _ in range(n)) + bytes([0, rng.choice((0, 0, 1)), rng.randrange(256), rng.choice((0, 1, 7, 31, 32, 33))]), None)); st["random"] += 1
+    mo = V.run([model], inp="".join("U %s\n" % z.hex() for _, z, _ in cases), timeout=3000).stdout.split("\n")
+    for mode in ("mem", "file"):
+        r = V.run([drv, mode], inp="".join("%s\n" % z.hex() for _, z, _ in cases), env=env, timeout=3000)
+        co = r.stdout.split("\n")
+        if r.returncode != 0:
+            k = len([l for l in co if l.startswith("RET")]); ck.violation({"engine": "pp20", "tag": cases[min(k, len(cases) - 1)][0], "z": cases[min(k, len(cases) - 1)][1].hex(), "broken": "sanitizer report / crash in decrunch_pp (%s stream)" % mode, "stderr": r.stderr[-2000:]}, key="c08-pp-crash")
+        for k, (tag, z, want) in enumerate(cases):
+            if k >= len(co) or not co[k].startswith("RET"): break
+            ck.count(); m = mo[k].split(); mv = None if m[0] == "FAIL" else (bytes.fromhex(m[1]) if m[1] != "-" else b"")
+            if want is not None and mv != want: raise V.BuildError("the extracted pp_unpack (pp_pack_data data) differs from data for %s: theorem pp_roundtrip would be false" % tag)
+            if mv is None and mode == "mem": st["model_rejects"] += 1
+            w = co[k].split(); ret = int(w[1]); bad = None
+            if ret != 0 and mv is not None: bad = "decrunch_pp (%s stream) returns -1, the model unpacks %d bytes" % (mode, len(mv))
+            elif ret == 0 and mv is None: bad = "decrunch_pp (%s stream) unpacks %s bytes, the model refuses the file" % (mode, w[3])
+            elif ret == 0:
+                exp = ("md5:" + hashlib.md5(mv).hexdigest()) if len(mv) > 65536 else (mv.hex() or "-"); st["bytes_compared"] += len(mv)
+                if w[4] != exp: bad = "decrunch_pp (%s stream) and the model unpack different bytes (%s vs %d)" % (mode, w[3], len(mv))
+            if bad:
+                ck.violation({"engine": "pp20", "tag": tag, "z": z.hex() if len(z) < 200000 else None, "what": bad,
+                              "broken": "correspondence: Model/PP20.v (pp_unpack) vs src/depackers/ppdepack.c" + ("; the file was written by the proved writer for a known payload: C08 is violated on this input" if want is not None else "")}, key="c08:pp20:%s:%s" % (tag.split(":")[0], bad.split(",")[0][:40]))
+            else: ck.nontrivial(("pp20", mode, z))
+
 def main():
     tier = sys.argv[1] if len(sys.argv) > 1 else "quick"
     replay = sys.argv[sys.argv.index("--replay") + 1] if "--replay" in sys.argv else None
     ck = V.Check("C08", tier)
     rng = ck.rng
-    ck.proof_leg(["Extract/Extract_rle90.vo", "Extract/Extract_lzw.vo", "Extract/Extract_inflate.vo"])
+    ck.proof_leg(["Extract/Extract_rle90.vo", "Extract/Extract_lzw.vo", "Extract/Extract_inflate.vo", "Extract/Extract_pp20.vo"])
     drv = V.build_driver("c07_drv", ["c07_drv.c"])
     model = V.ocaml_build("rle90")
     env = V.san_env()
@@ -286,7 +349,7 @@ def main():
     stats = {"payloads": 0, "containers": 0, "by_kind": {}, "rle90_streams": 0, "rle90_ratio_min": 1.0}
     try:
         rp = json.load(open(replay)) if replay else None
-        if rp and rp.get("engine") in ("lzw", "inflate"):
+        if rp and rp.get("engine") in ("lzw", "inflate", "pp20"):
             pay = []
         elif rp:
             pay = [(rp["payload_name"], bytes.fromhex(rp["payload_hex"]) if rp.get("payload_hex") else open(os.path.join(V.REPO, rp["payload_file"]), "rb").read())]
@@ -325,12 +388,20 @@ def main():
             w = l.split()
             if len(w) != 3 or w[0] != "GZ" or w[1] != "1": raise V.BuildError("gzip writer: unexpected output %r" % l[:80])
             g_all.setdefault(i, []).append(bytes.fromhex(w[2]))
+        pmodel = V.ocaml_build("pp20")
+        preq = [(i, e) for i, (_, p) in enumerate(pay) if len(p) <= 130000 for e in ("9,9,9,9", "9,10,12,13")]
+        pout = V.run([pmodel], inp="".join("P %s %s\n" % (e, pay[i][1].hex()) for i, e in preq), timeout=3000).stdout.split("\n")
+        p_all = {}
+        for (i, e), l in zip(preq, pout):
+            w = l.split()
+            if len(w) != 3 or w[0] != "PP" or w[1] != "1": raise V.BuildError("pp20 writer: unexpected output %r" % l[:80])
+            p_all.setdefault(i, []).append(bytes.fromhex(w[2]))
         jobs = []       # (payload index, tag, path)
         for i, (name, payload) in enumerate(pay):
             stats["payloads"] += 1
             bare = os.path.join(tmpd, "p%03d.bin" % i); open(bare, "wb").write(payload); jobs.append((i, "bare", bare))
             stats["rle90_streams"] += 1; stats["rle90_ratio_min"] = min(stats["rle90_ratio_min"], round(len(packed_all[i]) / max(1, len(payload)), 3))
-            for tag, blob in containers(rng, payload, lambda p, i=i: packed_all[i], tier, z_all.get(i, ()), g_all.get(i, ())):
+            for tag, blob in containers(rng, payload, lambda p, i=i: packed_all[i], tier, z_all.get(i, ()), g_all.get(i, ()), p_all.get(i, ())):
                 p = os.path.join(tmpd, "c%03d-%s" % (i, tag)); open(p, "wb").write(blob); jobs.append((i, tag, p))
         inp = "".join("LP %s\nTP %s\nTF %s\n" % (p, p, p) for _, _, p in jobs)
         r = V.run([drv, "load"], inp=inp, env=env, timeout=6000)
@@ -368,6 +439,8 @@ def main():
         if r.returncode != 0:
             k = len(blocks) // 3; j = jobs[min(k, len(jobs) - 1)]
             ck.violation({"payload_name": pay[j[0]][0], "container": j[1], "broken": "sanitizer report / crash while unpacking", "stderr": r.stderr[-2000:]}, key="c08-crash")
+        if not rp or rp.get("engine") == "pp20":
+            pp_leg(ck, tier, rng, stats, rp if rp and rp.get("engine") == "pp20" else None)
         if not rp or rp.get("engine") == "inflate":
             inflate_leg(ck, tier, rng, stats, rp if rp and rp.get("engine") == "inflate" else None)
         if not rp or rp.get("engine") == "lzw":
